@@ -455,6 +455,23 @@ def d4(fb, chk, tag):
             atoms = m.atoms_at(bb)
             ok1 = has_cmp(atoms, "Ne", "memory_size", rconst=0, sym=m.sym)
             ok2 = has_cmp(atoms, "Ge", "mmap_handle", rconst=0, sym=m.sym)
+            if not (ok1 and ok2):
+                # validation in a pass of its own: every element of `regions` is tested in a loop whose failing edges cannot
+                # reach the append / the send (they return the error); the append loop runs over the same list afterwards
+                sends = [b_ for b_, _t, _a, _g in ss]
+                targets = set(sends) | {bb}
+                seen = {"size": [], "handle": []}
+                for d_, blk in enumerate(f.blocks):
+                    if blk["cleanup"] or blk["term"]["k"] != "switch":
+                        continue
+                    for sx in m.cfg.succ[d_]:
+                        ea = m.edge_atoms(d_, sx)
+                        for kind, op_, fld in (("size", "Eq", "memory_size"), ("handle", "Lt", "mmap_handle")):
+                            if has_cmp(ea, op_, fld, rconst=0, sym=m.sym) and any("regions" in show(a_[2]) + show(a_[3]) for a_ in ea if a_[0] == "cmp"):
+                                reach = m.cfg.reach(sx) | {sx}
+                                seen[kind].append(not (reach & targets))
+                ok1 = ok1 or (bool(seen["size"]) and all(seen["size"]))
+                ok2 = ok2 or (bool(seen["handle"]) and all(seen["handle"]))
             chk.check(ok1 and ok2, "D4", tag + "set_mem_table:region", "each appended region has memory_size != 0 and mmap_handle >= 0",
                       "a region is appended without the must-facts memory_size != 0 (%s) and mmap_handle >= 0 (%s)" % (ok1, ok2),
                       f.loc(t["line"]))
